@@ -33,7 +33,11 @@ def jobs_for(ctx):
              dict(max_dict_size=100, max_columns=2, hash="murmur", seed=7, base={"a": 1, "b": 2, "ab": 3, "ba": 1}),
              dict(max_dict_size=100, max_columns=3, hash="murmur", seed=8, base={"a": 2, "b": 1, "aa": 1, "bb": 4, "ab": 1}),
              dict(max_dict_size=6, max_columns=3, hash="murmur", seed=9, base={"a": 1, "b": 1, "aa": 2, "bb": 1}),
-             dict(max_dict_size=100, max_columns=None, hash="custom", base={"a": 1, "b": 2, "ab": 1, "bb": 1})]
+             dict(max_dict_size=100, max_columns=None, hash="custom", base={"a": 1, "b": 2, "ab": 1, "bb": 1}),
+             # the base dictionary alone fills (or exceeds) the cap: nothing more may be learned
+             dict(max_dict_size=2, max_columns=None, hash="identity", base={"a": 1, "b": 2}),
+             dict(max_dict_size=2, max_columns=None, hash="identity", base={"a": 1, "b": 1, "ab": 1}),
+             dict(max_dict_size=3, max_columns=7, hash="murmur", seed=10, base={"a": 1, "b": 1, "ba": 2})]
     n = ctx.n(ctx.pick(700, 3000))
     extra = ["abcabc", "aaaaaaaa", "abababab", "a", "", "é中é中", "xyzzy", "abcabcabcabc"]
     while len(jobs) < n:
